@@ -120,4 +120,35 @@ StatsOK(st, S) ==
 ExportOK(r, S) ==
   /\ NoDup(r) /\ Ids(r) = DOMAIN S
   /\ \A k \in DOMAIN r : r[k].ver = S[r[k].id].ver /\ r[k].fp = S[r[k].id].fp
+
+\* ---- weakened meanings while the indexes are only PARTIAL (after a crash inside
+\* an index rebuild, until a rebuild completes): record-driven lookups stay exact,
+\* index-driven ones may miss live signatures but never report a wrong one.
+ScanPartialOK(r, S, q, c, tbl) ==
+  /\ NoDup(r)
+  /\ Ids(r) \subseteq Alerts(S, q, c, tbl)
+  /\ \A k \in DOMAIN r : r[k].ver = S[r[k].id].ver /\ r[k].conf = ConfOf(tbl, r[k].ver)
+  /\ Descending(r)
+ExactPartialOK(r, S, q, c, tbl) ==
+  \/ r = <<>>
+  \/ /\ Len(r) = 1 /\ r[1].id \in AlertsExact(S, q, c, tbl)
+     /\ r[1].ver = S[r[1].id].ver /\ r[1].conf = ConfOf(tbl, r[1].ver)
+CandPartialOK(r, S, q, c) ==
+  /\ NoDup(r) /\ Ids(r) \subseteq Cand(S, q, c)
+  /\ \A k \in DOMAIN r : r[k].ver = S[r[k].id].ver
+ByTopoPartialOK(res, S, h) ==
+  res.found => /\ res.id \in DOMAIN S /\ S[res.id].topo = h
+               /\ res.ver = S[res.id].ver /\ res.fp = S[res.id].fp
+EntropyPartialOK(r, S, lo, hi) ==
+  /\ NoDup(r)
+  /\ Ids(r) \subseteq {i \in DOMAIN S : lo <= S[i].ent /\ S[i].ent <= hi}
+  /\ \A k \in DOMAIN r : r[k].ver = S[r[k].id].ver
+StatsPartialOK(st, S) ==
+  /\ st.sig = Cardinality(DOMAIN S)
+  /\ st.topo <= Cardinality(DOMAIN S) /\ st.entr <= Cardinality(DOMAIN S)
+  /\ st.fuzzy <= Cardinality({i \in DOMAIN S : S[i].fuzzy # ""})
+
+\* projection used to compare a logged state listing with a contract state
+Proj(S) == {<<i, S[i].ver, S[i].fp>> : i \in DOMAIN S}
+ProjSeq(r) == {<<r[k].id, r[k].ver, r[k].fp>> : k \in DOMAIN r}
 =============================================================================
